@@ -46,6 +46,9 @@ pub struct Case {
     pub backend: Backend,
     pub max_size: u8,
     pub steps: Vec<Step>,
+    /// harmless hooks (returning Ok) of every kind are installed on the pool
+    #[serde(default)]
+    pub hooks: bool,
 }
 
 // ---------------------------------------------------------------- scripted r2d2 manager
@@ -294,14 +297,32 @@ async fn interp(case: &Case, gates: Gates, v: &mut Verdict) {
         Backend::Sqlite => {
             let cfg = deadpool_sqlite::Config::new(":memory:");
             let mgr = deadpool_sqlite::Manager::from_config(&cfg, Runtime::Tokio1);
-            match deadpool_sqlite::Pool::builder(mgr).max_size(max).build() {
+            match {
+                let mut b = deadpool_sqlite::Pool::builder(mgr).max_size(max);
+                if case.hooks {
+                    b = b
+                        .post_create(deadpool::managed::Hook::sync_fn(|_, _| Ok(())))
+                        .pre_recycle(deadpool::managed::Hook::sync_fn(|_, _| Ok(())))
+                        .post_recycle(deadpool::managed::Hook::sync_fn(|_, _| Ok(())));
+                }
+                b.build()
+            } {
                 Ok(p) => PoolX::Sqlite(p),
                 Err(e) => fail!("build", "{:?}", e),
             }
         }
         Backend::R2d2 => {
             let mgr = deadpool_r2d2::Manager::new(SM { state: sstate.clone() }, Runtime::Tokio1);
-            match deadpool_r2d2::Pool::builder(mgr).max_size(max).build() {
+            match {
+                let mut b = deadpool_r2d2::Pool::builder(mgr).max_size(max);
+                if case.hooks {
+                    b = b
+                        .post_create(deadpool::managed::Hook::sync_fn(|_, _| Ok(())))
+                        .pre_recycle(deadpool::managed::Hook::sync_fn(|_, _| Ok(())))
+                        .post_recycle(deadpool::managed::Hook::sync_fn(|_, _| Ok(())));
+                }
+                b.build()
+            } {
                 Ok(p) => PoolX::R2d2(p),
                 Err(e) => fail!("build", "{:?}", e),
             }
@@ -325,7 +346,16 @@ async fn interp(case: &Case, gates: Gates, v: &mut Verdict) {
                 })),
             };
             let mgr = deadpool_diesel::sqlite::Manager::from_config(":memory:", Runtime::Tokio1, ManagerConfig { recycling_method: method });
-            match deadpool_diesel::sqlite::Pool::builder(mgr).max_size(max).build() {
+            match {
+                let mut b = deadpool_diesel::sqlite::Pool::builder(mgr).max_size(max);
+                if case.hooks {
+                    b = b
+                        .post_create(deadpool::managed::Hook::sync_fn(|_, _| Ok(())))
+                        .pre_recycle(deadpool::managed::Hook::sync_fn(|_, _| Ok(())))
+                        .post_recycle(deadpool::managed::Hook::sync_fn(|_, _| Ok(())));
+                }
+                b.build()
+            } {
                 Ok(p) => PoolX::Diesel(p),
                 Err(e) => fail!("build", "{:?}", e),
             }
@@ -600,7 +630,8 @@ pub fn case(thorough: bool) -> BoxedStrategy<Case> {
         ],
         1u8..=3,
         prop::collection::vec(step, 1..=maxlen),
+        prop::bool::weighted(0.3),
     )
-        .prop_map(|(backend, max_size, steps)| Case { backend, max_size, steps })
+        .prop_map(|(backend, max_size, steps, hooks)| Case { backend, max_size, steps, hooks })
         .boxed()
 }
